@@ -7,8 +7,16 @@ Part A  {no header, 1.0..1.39, latest, 1.40, 0.9, 2.0, malformed x4, other-servi
         x {GET, POST, PUT, DELETE, PATCH, HEAD, OPTIONS}; every request carries a body / query
         that the api-ref documents as valid for that version and addresses existing entities
         of a populated state, so that a 404/405 can only be a statement about the route/method.
-Part B  ~130 probes for the versioned features of rest_api_version_history.rst / api-ref,
-        each evaluated at no header, 1.0..1.39 and latest, judged by a presence predicate.
+Part B  152 probes for the versioned features of rest_api_version_history.rst / api-ref
+        (every version 1.1 .. 1.39 has at least one), each evaluated at no header, 1.0..1.39
+        and latest and judged by a presence predicate: present exactly inside the documented
+        version window; where the documentation names the rejection (404 route, 405 method,
+        400 body/query) that status is demanded outside it.
+Part H  7 error responses (400/404/406/409/415) at every accepted version: status + headers.
+Part T  the declared routing table and version range against the documented ones.
+Every response to an accepted version is checked for `openstack-api-version: placement X.Y`
+naming the applied version and for `Vary` listing that header.  quick: one populated state;
+thorough: three.
 
 Oracles are the tables INTRODUCED / normal_status() / FEATURES below, written from
 /repo/placement/rest_api_version_history.rst and /repo/api-ref/source/*.inc, parameters.yaml.
@@ -359,10 +367,8 @@ def a_request(s, route, method, v):
         if method == 'POST':
             body = {'name': 'c14-new', 'uuid': PNEW}
     elif route == '/resource_providers/{uuid}':
-        path = '/resource_providers/' + P(5) if method == 'DELETE' and s.k != 2 \
-            else '/resource_providers/' + P(3)
-        if method == 'DELETE' and s.k == 2:
-            path = '/resource_providers/' + P(5)    # has inventory, no allocations: deletable
+        # P5 has no children and no allocations in any state: deletable
+        path = '/resource_providers/' + (P(5) if method == 'DELETE' else P(3))
         if method == 'PUT':
             body = {'name': 'c14-renamed'}
     elif route == '/resource_providers/{uuid}/inventories':
@@ -454,7 +460,7 @@ def judge_a(route, method, vv, status, headers, body):
         return [('server-error:%s:%s' % (cell, status), 'answered %s' % status)]
     if vv['cls'] == 'outside':
         if status != 406:
-            out.append(('outside-not-406:%s:%s' % (cell, status),
+            out.append(('outside-not-406:%s:%s' % (vv['id'], status),
                         'version %s is outside 1.0-1.39 but the answer is %s, not 406'
                         % (vv['id'], status)))
         elif body is not None:
@@ -464,7 +470,7 @@ def judge_a(route, method, vv, status, headers, body):
             except Exception:
                 ok = False
             if not ok:
-                out.append(('406-body:%s' % cell,
+                out.append(('406-body:%s' % vv['id'],
                             '406 body does not name min_version 1.0 / max_version 1.39'))
         return out
     if vv['cls'] == 'malformed':
@@ -479,7 +485,6 @@ def judge_a(route, method, vv, status, headers, body):
     # one signature for the unknown route whatever the method
     where = '%s:%s' % (status, '<unknown route>' if route == UNKNOWN_ROUTE else cell)
     out += check_version_headers(vv, hd, where)
-    allow_needed = False
     if route == UNKNOWN_ROUTE:
         exp = {404}
     else:
@@ -514,6 +519,34 @@ def judge_a(route, method, vv, status, headers, body):
                 out.append(('allow-incomplete:%s' % cell,
                             'Allow %r omits %s documented for %s at %s' % (
                                 hd.get('allow'), missing, route, vstr(v))))
+    return out
+
+
+# ---------------------------------------------------------------------------------------------
+# Part H: error responses of accepted versions carry the version headers too
+# ---------------------------------------------------------------------------------------------
+# name -> (method, path, R-kwargs, documented status)
+HEADER_PROBES = {
+    'unknown provider': ('GET', '/resource_providers/' + PNEW, {}, 404),
+    'unknown consumer delete': ('DELETE', '/allocations/' + KNEW, {}, 404),
+    'body without content-type': ('POST', '/resource_providers',
+                                  {'raw': '{"name": "c14-new"}', 'ctype': None}, 400),
+    'unsupported content-type': ('POST', '/resource_providers',
+                                 {'raw': '{"name": "c14-new"}', 'ctype': 'text/plain'}, 415),
+    'unacceptable accept': ('GET', '/resource_providers', {'accept': 'text/plain'}, 406),
+    'invalid json': ('POST', '/resource_providers', {'raw': '{'}, 400),
+    'duplicate name': ('POST', '/resource_providers', {'body': {'name': 'c14-rp1'}}, 409),
+}
+
+
+def judge_h(name, vv, status, headers):
+    method, path, _, want = HEADER_PROBES[name]
+    if status >= 500:
+        return [('server-error:%s:%s' % (name, status), 'answered %s' % status)]
+    out = check_version_headers(vv, lower(headers), '%s:%s' % (status, template(method, path)))
+    if status != want:
+        out.append(('error-status:%s:%s' % (name, status),
+                    '%s %s (%s) answered %s, expected %s' % (method, path, name, status, want)))
     return out
 
 
@@ -1205,9 +1238,22 @@ class Worker(vpenum.EnumWorker):
         self.states = {}
 
     def state(self, k):
+        """-> (image, facts) or (None, (signature, message)) when a setup request -- all of
+        them documented as valid at 1.39 -- is refused, which is itself a finding."""
         if k not in self.states:
             spec = state_spec(k)
-            img = self.build(setup_requests(spec))
+            self.restore(self.base)
+            for rq in setup_requests(spec):
+                resp, _ = self.call(rq)
+                if resp.status >= 400:
+                    self.states[k] = (None, (
+                        'setup-refused:%s@1.39:%s' % (template(rq['method'], rq['path']),
+                                                      resp.status),
+                        'valid 1.39 request %s %s %s answered %s %s' % (
+                            rq['method'], rq['path'], json.dumps(rq.get('body')), resp.status,
+                            resp.raw[:200])))
+                    return self.states[k]
+            img = self.image()
             d = self.dump()
             s = S(spec, {u: p['gen'] for u, p in d.providers.items()},
                   {u: c['gen'] for u, c in d.consumers.items()})
@@ -1217,11 +1263,22 @@ class Worker(vpenum.EnumWorker):
         return self.states[k]
 
     def case(self, c):
-        img, s = self.state(c['state'])
-        self.restore(img)
         if c['part'] == 'T':
             return {'status': 0, 'viol': judge_table(), 'n': 0, 'reqs': None, 'resp': None}
+        img, s = self.state(c['state'])
+        if img is None:
+            return {'status': 0, 'present': None, 'viol': [s], 'n': 0, 'reqs': None,
+                    'resp': None}
+        self.restore(img)
         vv = VV_BY_ID[c['vv']]
+        if c['part'] == 'H':
+            method, path, kw, _ = HEADER_PROBES[c['probe']]
+            kw = dict(kw)
+            rq = req(vv, method, path, kw.pop('body', None), **kw)
+            resp, _ = self.call(rq)
+            viol = judge_h(c['probe'], vv, resp.status, resp.headers)
+            return {'status': resp.status, 'viol': viol, 'reqs': [rq] if viol else None,
+                    'resp': resp.brief() if viol else None, 'n': 1}
         if c['part'] == 'A':
             v = vv['applied'] or MAXV
             path, body, query = a_request(s, c['route'], c['method'], v)
@@ -1287,6 +1344,9 @@ def all_cases(states):
         for f in FEATURES:
             for vid in VV_ACCEPTED_B:
                 cases.append({'part': 'B', 'state': k, 'feature': f.id, 'vv': vid})
+        for name in sorted(HEADER_PROBES):
+            for vid in VV_ACCEPTED_B:
+                cases.append({'part': 'H', 'state': k, 'probe': name, 'vv': vid})
     return cases
 
 
@@ -1309,6 +1369,7 @@ def run(ctx):
     cells = set()
     hist = {}
     feat_cells = set()
+    hcells = set()
     per_feature = {}
     allow_self = 0
     notes = {}
@@ -1318,6 +1379,8 @@ def run(ctx):
         vv = VV_BY_ID[c['vv']]
         if c['part'] == 'T':
             pass
+        elif c['part'] == 'H':
+            hcells.add((c['probe'], c['vv'], res['status']))
         elif c['part'] == 'A':
             hist.setdefault(c['method'], {})
             hist[c['method']][str(res['status'])] = \
@@ -1326,7 +1389,8 @@ def run(ctx):
                 cells.add((c['route'], c['method'], c['vv'], res['status']))
             if res.get('allow_self'):
                 allow_self += 1
-            if len(samples) < 3 and c['vv'] == '1.4' and c['method'] == 'DELETE':
+            if len(samples) < 3 and c['vv'] in ('1.4', '1.5', '2.0') and \
+                    c['method'] == 'DELETE' and c['route'].endswith('{uuid}/inventories'):
                 samples.append({'part': 'A', 'case': c, 'status': res['status']})
         else:
             feat_cells.add((c['feature'], c['vv'], res['present']))
@@ -1353,15 +1417,18 @@ def run(ctx):
     ctx.level = 'exploration'
     ctx.coverage.update({
         'evaluations': evaluations,
-        'distinct_nontrivial': len(cells) + len(feat_cells),
+        'distinct_nontrivial': len(cells) + len(feat_cells) + len(hcells),
+        'part_h_cells': len(hcells),
         'rule': 'closed table, enumerated completely: Part A = %d version values x %d route '
-                'templates (21 declared + 1 unknown) x %d methods per state, each request '
+                'templates (all declared ones + 1 unknown) x %d methods per state, each request '
                 'valid for its version per the api-ref; Part B = %d feature probes x %d '
                 'accepted version values per state. A cell is counted as non-trivial when the '
                 'requested version was accepted (the request reached routing); distinct = '
                 'distinct (route, method, version value, status) cells of Part A plus distinct '
-                '(feature, version value, present?) cells of Part B'
-                % (len(VV), len(ROUTES), len(METHODS), len(FEATURES), len(VV_ACCEPTED_B)),
+                '(feature, version value, present?) cells of Part B; Part H = %d error probes x '
+                'the same version values, judged on status and version headers'
+                % (len(VV), len(ROUTES), len(METHODS), len(FEATURES), len(VV_ACCEPTED_B),
+                   len(HEADER_PROBES)),
         'samples': samples,
         'exhaustive': True,
         'db_states': len(states),
@@ -1402,6 +1469,10 @@ def replay(ctx, data):
     for rq in setup_requests(spec):
         r = http.call(h.app, rq)
         if r.status >= 400:
+            sig0 = 'setup-refused:%s@1.39:%s' % (template(rq['method'], rq['path']), r.status)
+            if sig0 == (data.get('signature_checked') or data.get('signature')):
+                return False, 'reproduced: setup request %s %s answered %s' % (
+                    rq['method'], rq['path'], r.status)
             raise HarnessError('replay setup failed: %s %s -> %s' % (
                 rq['method'], rq['path'], r.status))
     d = Dump(h.dbfile)
@@ -1409,7 +1480,13 @@ def replay(ctx, data):
           {u: x['gen'] for u, x in d.consumers.items()})
     vv = VV_BY_ID[c['vv']]
     sig = data.get('signature_checked') or data.get('signature')
-    if c['part'] == 'A':
+    if c['part'] == 'H':
+        method, path, kw, _ = HEADER_PROBES[c['probe']]
+        kw = dict(kw)
+        resp = http.call(h.app, req(vv, method, path, kw.pop('body', None), **kw))
+        viol = judge_h(c['probe'], vv, resp.status, resp.headers)
+        last = resp.status
+    elif c['part'] == 'A':
         path, body, query = a_request(s, c['route'], c['method'], vv['applied'] or MAXV)
         resp = http.call(h.app, req(vv, c['method'], path, body, query))
         viol = judge_a(c['route'], c['method'], vv, resp.status, resp.headers, resp.json)
